@@ -22,6 +22,8 @@ type QEventRec struct {
 	// client held when the event was delivered (settled = since before the last cut)
 	Must  map[string]bool
 	Maybe map[string]bool
+	// MustIv: the holding intervals that justify Must
+	MustIv map[string][]*Interval
 	// Events: per normalised query, the changes this event announces, each with
 	// the index of the mutation it stands for
 	Events map[string][]qEv
@@ -79,7 +81,7 @@ func (s *Sim) applyQueryEvent(op *SvcOp) bool {
 	s.mu.Lock()
 	s.querySubj[subj] = op.Name
 	s.mu.Unlock()
-	rec := &QEventRec{Name: op.Name, Subj: subj, Must: map[string]bool{}, Maybe: map[string]bool{}, Events: muts, Deleted: dels}
+	rec := &QEventRec{Name: op.Name, Subj: subj, Must: map[string]bool{}, Maybe: map[string]bool{}, MustIv: map[string][]*Interval{}, Events: muts, Deleted: dels}
 	payload := `{"subject":` + jstr(subj) + `}`
 	if op.Raw != "" {
 		payload = op.Raw
@@ -146,29 +148,22 @@ func (s *Sim) queryEventDelivered(rec *QEventRec) {
 	}
 	for _, nq := range sortedKeys(res.V) {
 		v := res.V[nq]
-		held, settled := false, true
-		for _, c := range s.Clients {
-			if c.State != "open" || c.Tainted != "" {
-				continue
-			}
-			for rid, h := range c.Cache {
-				if h.Kind == 'e' || h.Deleted {
-					continue
-				}
-				if _, vv := s.W.lookup(c.expandCID(rid)); vv == v {
-					held = true
-					if h.iv == nil || h.iv.StartCut >= s.Cut {
-						settled = false
-					}
-				}
-			}
-		}
-		if !held || v.Deleted {
+		if v.Deleted {
 			rec.Maybe[nq] = true
 			continue
 		}
-		if settled && !overlap && s.numPendingFor(rec.Name) == 0 {
+		// certain holders: settled direct subscribers since before the last idle moment
+		var ivs []*Interval
+		s.mu.Lock()
+		for _, iv := range s.certainHolders(v) {
+			if iv.StartCut < s.Cut {
+				ivs = append(ivs, iv)
+			}
+		}
+		s.mu.Unlock()
+		if len(ivs) > 0 && !overlap && s.numPendingFor(rec.Name) == 0 {
 			rec.Must[nq] = true
+			rec.MustIv[nq] = ivs
 		} else {
 			rec.Maybe[nq] = true
 		}
@@ -229,7 +224,14 @@ func (s *Sim) answerQuery(r *Req, outcome string) {
 		snap := v.Actual.clone()
 		v.Announced = snap
 		v.AnnVer = v.Ver
-		delete(s.refetchFailed, v)
+		if s.maybeResetting(r, v) {
+			// the gateway drops what a query answer tells while a reset re-fetch of
+			// the variant is under way; should that re-fetch fail, its copy stays as
+			// it was
+			s.refetchFailed[v] = true
+		} else {
+			delete(s.refetchFailed, v)
+		}
 		v.Stream = append(v.Stream, &StreamEv{Pos: len(v.Stream), Kind: "snap", After: snap, DlvCut: -1})
 		tr.enqueueReply(r, r.Name, []byte(`{"result":`+snap.serviceJSON()+`}}`), nil, nil)
 	default: // events
@@ -254,6 +256,26 @@ func (s *Sim) answerQuery(r *Req, outcome string) {
 	}
 }
 
+// maybeResetting: a reset re-fetch of variant v was sent before query request
+// r is answered and the gateway may not have processed its answer yet.
+func (s *Sim) maybeResetting(r *Req, v *Variant) bool {
+	s.mu.Lock()
+	defer s.mu.Unlock()
+	res := s.W.Res[r.Name]
+	for _, q := range s.tr.reqs {
+		if q.Type != "get" || q.Name != r.Name || q.Rf == 0 {
+			continue
+		}
+		if n, ok := res.normalise(q.Query); !ok || n != v.Query {
+			continue
+		}
+		if !q.Delivered || !s.processed(q.Name, q.DlvCut) {
+			return true
+		}
+	}
+	return false
+}
+
 // queryQuiescence is C13.a and C13.c.
 func (s *Sim) queryQuiescence() {
 	for _, qe := range s.QEvents {
@@ -262,11 +284,14 @@ func (s *Sim) queryQuiescence() {
 		}
 		s.stat("oracle.C13.a", 1)
 		got := map[string]int{}
-		var lastDlv uint64
+		var lastDlv, firstReq uint64
 		s.mu.Lock()
 		for _, r := range s.tr.reqs {
 			if r.Subj == qe.Subj {
 				got[r.Query]++
+				if firstReq == 0 || r.Seq < firstReq {
+					firstReq = r.Seq
+				}
 				if r.DlvSeq > lastDlv {
 					lastDlv = r.DlvSeq
 				}
@@ -287,12 +312,37 @@ func (s *Sim) queryQuiescence() {
 			}
 			if res.V[q] == nil {
 				s.violate("C13", "a", "unnormalised-query-request", "query event %s on %s caused a query request for %q which is not a normalised query of that resource", qe.Subj, qe.Name, q)
-			} else if !qe.Must[q] && !qe.Maybe[q] {
-				s.violate("C13", "a", "unexpected-query-request", "query event %s on %s caused a query request for %q which nobody holds", qe.Subj, qe.Name, q)
+			} else {
+				// only cached variants are asked about: its data must have reached the
+				// gateway before
+				loaded := false
+				s.mu.Lock()
+				for _, r := range s.tr.reqs {
+					if r.Type == "get" && r.Name == qe.Name && r.GotData && r.Delivered && r.DlvSeq < firstReq {
+						if n, ok := res.normalise(r.Query); ok && n == q {
+							loaded = true
+						}
+					}
+				}
+				s.mu.Unlock()
+				if !loaded {
+					s.violate("C13", "a", "unexpected-query-request", "query event %s on %s caused a query request for %q which the gateway had never loaded", qe.Subj, qe.Name, q)
+				}
 			}
 		}
 		for q := range qe.Must {
 			if v := res.V[q]; v == nil || v.Deleted {
+				continue
+			}
+			// the holders must still have been there when the gateway got round to
+			// the event: to the end, or at least until its first query request
+			still := false
+			for _, iv := range qe.MustIv[q] {
+				if !iv.Closed || (firstReq != 0 && iv.EndSeq > firstReq) {
+					still = true
+				}
+			}
+			if !still {
 				continue
 			}
 			if got[q] == 0 && !s.gwStopped {
@@ -465,13 +515,13 @@ func (s *Sim) refetchClass(r *Req) int8 {
 	fuzzy := false
 	for _, e := range evs {
 		if e.del {
-			if e.cut >= r.Cut {
+			if !s.processed(r.Name, e.cut) {
 				fuzzy = true
 			}
 			loaded = false
 			continue
 		}
-		if !e.send && e.cut >= r.Cut && (!e.q.GotData || e.q.Query != r.Query) {
+		if !e.send && !s.processed(r.Name, e.cut) && (!e.q.GotData || e.q.Query != r.Query) {
 			// (an answer with data to a get with the same query leaves no doubt: with
 			// or without it r can only be a re-fetch)
 			fuzzy = true
@@ -524,7 +574,11 @@ func (s *Sim) isRefetch(r *Req) bool { return r.Type == "get" && r.Rf == 2 }
 // variant v in the gateway's cache whatever the gateway's internal queues hold:
 // an open, untainted client with a settled direct subscription to it, no
 // unsubscribe request for it in flight and no refused access check since.
-func (s *Sim) certainlyHeld(v *Variant) bool {
+func (s *Sim) certainlyHeld(v *Variant) bool { return len(s.certainHolders(v)) > 0 }
+
+// certainHolders returns the holding intervals behind certainlyHeld.
+func (s *Sim) certainHolders(v *Variant) []*Interval {
+	var out []*Interval
 	for _, c := range s.Clients {
 		if c.State != "open" || c.Tainted != "" {
 			continue
@@ -552,10 +606,10 @@ func (s *Sim) certainlyHeld(v *Variant) bool {
 					continue rids
 				}
 			}
-			return true
+			out = append(out, h.iv)
 		}
 	}
-	return false
+	return out
 }
 
 func accessGrantsGet(outcome string) bool {
